@@ -412,7 +412,9 @@ func c18Run(name string, cfg world.Config, tour []tourStep, pairs bool, dl time.
 					}
 					// O2: success implies saved
 					if strings.HasPrefix(o.Req.Path, s.AB.Config.Paths.Mount+"/") && successClass(o) == successClass(oRef) && o.OK() {
-						if a, b := dbCanon(cl), dbCanon(ref); a != b && kind == world.FaultGeneric {
+						// (a look-up answering "not found" legitimately leads to the faked success of the unknown-account
+						// paths; a Save answering "not found" did not save)
+						if a, b := dbCanon(cl), dbCanon(ref); a != b && (kind == world.FaultGeneric || calls[k] == "db.Save") {
 							report("success-without-save", "request="+oRef.Req.Tag.Kind+",call="+calls[k],
 								where+": the response is the same success as without the failure ("+successClass(o)+") but the database differs from the fault-free outcome", path)
 						}
